@@ -69,6 +69,12 @@ pub enum G {
     SelectRef(Vec<u8>),
     /// custom parser reporting InputRef::span_from(cursor..) — ExactSizeInput kinds only
     SpanFrom,
+    /// custom parser reporting InputRef::slice_from(cursor..) (the rest of the input) — SliceInput kinds only
+    SliceFrom,
+    /// custom parser exercising the InputRef API available on every input kind:
+    /// kind 0 = peek_maybe then next_maybe; 1 = save / next / save / next / partial rewind;
+    /// 2 = inp.parse(sub-parser) + inp.check(sub-parser); consumes >= 1 token when it succeeds
+    CustomApi(u8, u8),
 }
 
 #[derive(Clone, Debug)]
@@ -139,11 +145,12 @@ impl<'r> Gen<'r> {
     }
     fn leaf(&mut self, consuming: bool) -> G {
         loop {
-            let k = self.rng.below(if self.cfg.allow_borrow || self.cfg.allow_exact { 16 } else { 12 });
+            let k = self.rng.below(if self.cfg.allow_borrow || self.cfg.allow_exact || self.cfg.allow_slice { 16 } else { 12 });
             let g = match k {
                 12 | 13 if self.cfg.allow_borrow => G::AnyRef,
                 14 if self.cfg.allow_borrow => G::SelectRef(self.symset()),
                 15 if self.cfg.allow_exact && !consuming => G::SpanFrom,
+                15 if self.cfg.allow_slice && !consuming => G::SliceFrom,
                 12..=15 => continue,
                 0..=3 => G::Just(self.sym()),
                 4 => {
@@ -154,6 +161,7 @@ impl<'r> Gen<'r> {
                 6 if self.cfg.value_prims => G::OneOf(self.symset()),
                 7 if self.cfg.value_prims => G::NoneOf(self.symset()),
                 8 if self.cfg.value_prims => G::Select(self.symset()),
+                9 if self.rng.chance(1, 2) => G::CustomApi(self.rng.below(3) as u8, self.sym()),
                 9 => {
                     let a = self.sym();
                     let mut b = self.sym();
@@ -351,9 +359,9 @@ pub fn generate(rng: &mut Rng, cfg: &GenCfg) -> G {
 pub fn nullable(g: &G) -> bool {
     use G::*;
     match g {
-        Just(_) | Any | OneOf(_) | NoneOf(_) | Select(_) | Custom(..) | AnyRef | SelectRef(_) => false,
+        Just(_) | Any | OneOf(_) | NoneOf(_) | Select(_) | Custom(..) | AnyRef | SelectRef(_) | CustomApi(..) => false,
         JustSeq(v) => v.is_empty(),
-        End | Empty | SpanFrom => true,
+        End | Empty | SpanFrom | SliceFrom => true,
         Then(a, b) | IgnoreThen(a, b) | ThenIgnore(a, b) => nullable(a) && nullable(b),
         Delim(i, o, c) => nullable(i) && nullable(o) && nullable(c),
         PaddedBy(a, p) => nullable(a) && nullable(p),
@@ -467,7 +475,7 @@ fn leftmost_recref(g: &G) -> bool {
     use G::*;
     match g {
         RecRef => true,
-        Just(_) | JustSeq(_) | Any | OneOf(_) | NoneOf(_) | Select(_) | Custom(..) | End | Empty | AnyRef | SelectRef(_) | SpanFrom => false,
+        Just(_) | JustSeq(_) | Any | OneOf(_) | NoneOf(_) | Select(_) | Custom(..) | End | Empty | AnyRef | SelectRef(_) | SpanFrom | SliceFrom | CustomApi(..) => false,
         Then(a, b) | IgnoreThen(a, b) | ThenIgnore(a, b) => leftmost_recref(a) || (nullable(a) && leftmost_recref(b)),
         Delim(i, o, c) => leftmost_recref(o) || (nullable(o) && (leftmost_recref(i) || (nullable(i) && leftmost_recref(c)))),
         PaddedBy(a, p) => leftmost_recref(p) || (nullable(p) && leftmost_recref(a)) || (nullable(p) && nullable(a) && leftmost_recref(p)),
@@ -539,7 +547,7 @@ pub fn contains(g: &G, f: &dyn Fn(&G) -> bool) -> bool {
 /// Does the grammar need ValueInput (any/one_of/none_of/select!/nested_delimiters)?
 pub fn needs_value_input(g: &G) -> bool {
     contains(g, &|x| {
-        matches!(x, G::Any | G::OneOf(_) | G::NoneOf(_) | G::Select(_) | G::Not(_) | G::Lazy(_) | G::Slice(_) | G::AnyRef | G::SelectRef(_) | G::SpanFrom) || matches!(x, G::Recover(_, Strat::Nested(..)))
+        matches!(x, G::Any | G::OneOf(_) | G::NoneOf(_) | G::Select(_) | G::Not(_) | G::Lazy(_) | G::Slice(_) | G::AnyRef | G::SelectRef(_) | G::SpanFrom | G::SliceFrom) || matches!(x, G::Recover(_, Strat::Nested(..)))
     })
 }
 
@@ -625,6 +633,8 @@ pub fn sexpr(g: &G) -> String {
         AnyRef => "any_ref".into(),
         SelectRef(v) => format!("sel_ref[{}]", syms(v)),
         SpanFrom => "span_from".into(),
+        SliceFrom => "slice_from".into(),
+        CustomApi(k, a) => format!("custom_api#{}({})", k, c(*a)),
     }
 }
 
@@ -655,7 +665,13 @@ pub fn sample(g: &G, rng: &mut Rng, nsym: u8, out: &mut Vec<u8>, fuel: &mut i64,
         OneOf(v) | Select(v) | SelectRef(v) => out.push(*rng.pick(v)),
         NoneOf(v) => out.push(other(v, rng)),
         Custom(a, _) => out.push(*a),
-        End | Empty | Not(_) | Rewind(_) | SpanFrom => {}
+        CustomApi(k, a) => {
+            out.push(*a);
+            if *k >= 1 && rng.chance(1, 2) {
+                out.push(*a);
+            }
+        }
+        End | Empty | Not(_) | Rewind(_) | SpanFrom | SliceFrom => {}
         Then(a, b) | IgnoreThen(a, b) | ThenIgnore(a, b) => {
             sample(a, rng, nsym, out, fuel, rec);
             sample(b, rng, nsym, out, fuel, rec);
@@ -805,7 +821,7 @@ pub fn show_input(v: &[u8]) -> String {
 
 /// Capabilities a grammar needs from its input kind: (SliceInput, BorrowInput, ExactSizeInput).
 pub fn needs_caps(g: &G) -> (bool, bool, bool) {
-    (contains(g, &|x| matches!(x, G::Slice(_))), contains(g, &|x| matches!(x, G::AnyRef | G::SelectRef(_))), contains(g, &|x| matches!(x, G::SpanFrom)))
+    (contains(g, &|x| matches!(x, G::Slice(_) | G::SliceFrom)), contains(g, &|x| matches!(x, G::AnyRef | G::SelectRef(_))), contains(g, &|x| matches!(x, G::SpanFrom)))
 }
 
 /// The sync builder (`&dyn Parser` at every node) has no Rec / nested_delimiters: replace them by
